@@ -31,6 +31,23 @@ type J struct {
 
 func jn(t, s string) J { return J{T: t, S: s, K: []string{}, E: []J{}} }
 
+// jnum: a number travels as magnitude text in s and the sign in k (<<"-">> when negative), so that the spec can
+// take absolute values and negate without string surgery
+func jnum(text string) J {
+	text = canonNum(text)
+	if len(text) > 0 && text[0] == '-' {
+		return J{T: "num", S: text[1:], K: []string{"-"}, E: []J{}}
+	}
+	return J{T: "num", S: text, K: []string{}, E: []J{}}
+}
+
+func numText(j J) string {
+	if len(j.K) == 1 && j.K[0] == "-" {
+		return "-" + j.S
+	}
+	return j.S
+}
+
 var jNone = jn("none", "")
 var jNull = jn("null", "null")
 
@@ -46,6 +63,7 @@ type V struct {
 	Gap   bool     `json:"gap"`
 	Syn   bool     `json:"syn"`  // synthetic (FieldValue*): no bits
 	Bits  string   `json:"bits"` // raw: the bits as '0'/'1' text
+	Inv   bool     `json:"inv"`  // raw: the bytes are not valid UTF-8
 }
 
 func (v *V) fix() {
@@ -110,7 +128,7 @@ func goOf(j J) any {
 	case "str":
 		return j.S
 	case "num":
-		if bi, ok := new(big.Int).SetString(j.S, 10); ok {
+		if bi, ok := new(big.Int).SetString(numText(j), 10); ok {
 			if bi.IsUint64() {
 				return bi.Uint64()
 			}
@@ -119,7 +137,7 @@ func goOf(j J) any {
 			}
 			return bi
 		}
-		f, _ := strconv.ParseFloat(j.S, 64)
+		f, _ := strconv.ParseFloat(numText(j), 64)
 		return f
 	case "arr":
 		a := make([]any, len(j.E))
@@ -162,18 +180,18 @@ func jOfGo(v any) (J, bool) {
 	case string:
 		return jn("str", string([]rune(x))), true
 	case int:
-		return jn("num", strconv.Itoa(x)), true
+		return jnum(strconv.Itoa(x)), true
 	case int64:
-		return jn("num", strconv.FormatInt(x, 10)), true
+		return jnum(strconv.FormatInt(x, 10)), true
 	case uint64:
-		return jn("num", strconv.FormatUint(x, 10)), true
+		return jnum(strconv.FormatUint(x, 10)), true
 	case *big.Int:
-		return jn("num", x.String()), true
+		return jnum(x.String()), true
 	case float64:
 		if math.IsNaN(x) || math.IsInf(x, 0) {
 			return J{}, false
 		}
-		return jn("num", canonNum(strconv.FormatFloat(x, 'g', -1, 64))), true
+		return jnum(strconv.FormatFloat(x, 'g', -1, 64)), true
 	case float32:
 		return jOfGo(float64(x))
 	case []any:
@@ -269,9 +287,9 @@ func widthBig(x *big.Int) int {
 }
 
 func numOf(j J) *big.Int {
-	bi, ok := new(big.Int).SetString(j.S, 10)
+	bi, ok := new(big.Int).SetString(numText(j), 10)
 	if !ok {
-		panic("c08 descr: not an integer: " + j.S)
+		panic("c08 descr: not an integer: " + numText(j))
 	}
 	return bi
 }
@@ -298,7 +316,7 @@ func encode(v *V, w *bitw) {
 		x := numOf(v.A)
 		w.uintBits(x, widthBig(x))
 	case "flt":
-		f, err := strconv.ParseFloat(v.A.S, 64)
+		f, err := strconv.ParseFloat(numText(v.A), 64)
 		if err != nil {
 			panic("c08 descr: bad float " + v.A.S)
 		}
@@ -456,7 +474,7 @@ func decodeField(d *decode.D, name string, v *V) {
 			ms = append(ms, scalar.FltDescription(v.Desc))
 		}
 		if v.Syn {
-			f, _ := strconv.ParseFloat(v.A.S, 64)
+			f, _ := strconv.ParseFloat(numText(v.A), 64)
 			d.FieldValueFlt(name, f, ms...)
 		} else {
 			d.FieldF64(name, ms...)
@@ -606,6 +624,7 @@ func describe(dv *decode.Value, o *descOpts) (V, bool) {
 			}
 			out.Bits = bs
 			out.A = jn("str", rawText(bs))
+			out.Inv = !rawValid(bs)
 			return out, true
 		default:
 			return V{}, false
@@ -659,7 +678,7 @@ func eqV(a, b *V) string {
 		return fmt.Sprintf("t %s/%s", a.T, b.T)
 	}
 	if a.T == "scalar" {
-		if a.Kind != b.Kind || a.A.S != b.A.S || a.A.T != b.A.T || a.Sym.T != b.Sym.T || a.Sym.S != b.Sym.S || a.Desc != b.Desc || a.Gap != b.Gap || a.Syn != b.Syn {
+		if a.Kind != b.Kind || !eqJ(a.A, b.A) || !eqJ(a.Sym, b.Sym) || a.Bits != b.Bits || a.Inv != b.Inv || a.Desc != b.Desc || a.Gap != b.Gap || a.Syn != b.Syn {
 			ja, _ := json.Marshal(a)
 			jb, _ := json.Marshal(b)
 			return fmt.Sprintf("scalar %s / %s", ja, jb)
@@ -678,4 +697,10 @@ func eqV(a, b *V) string {
 		}
 	}
 	return ""
+}
+
+func eqJ(a, b J) bool {
+	x, _ := json.Marshal(a)
+	y, _ := json.Marshal(b)
+	return string(x) == string(y)
 }
